@@ -3,9 +3,9 @@ import os, sys, subprocess, json, struct, math, random
 sys.path.insert(0, os.path.join(os.path.dirname(os.path.abspath(__file__)), '..', 'sx'))
 from core import *
 
-MAPS_TUS = ['src/SM/KickMap.cpp', 'src/SM/SourceMap.cpp', 'src/SM/RFKickMap.cpp', 'src/SM/DriftMap.cpp', 'src/SM/FokkerPlanckMap.cpp',
+MAPS_TUS = ['src/SM/KickMap.cpp', 'src/SM/SourceMap.cpp', 'src/SM/RFKickMap.cpp', 'src/SM/DynamicRFKickMap.cpp', 'src/SM/DriftMap.cpp', 'src/SM/FokkerPlanckMap.cpp',
             'src/SM/Identity.cpp', 'src/PS/PhaseSpace.cpp', 'src/IO/Display.cpp', 'src/HelperFunctions.cpp']
-MAPS_MODS = ['harness', 'KickMap', 'SourceMap', 'RFKickMap', 'DriftMap', 'FokkerPlanckMap', 'PhaseSpace', 'Identity']
+MAPS_MODS = ['harness', 'KickMap', 'SourceMap', 'RFKickMap', 'DynamicRFKickMap', 'DriftMap', 'FokkerPlanckMap', 'PhaseSpace', 'Identity']
 
 F32 = FloatTy(32)
 
